@@ -75,6 +75,10 @@ func oracleFor(op *Sexp, res string) []string {
 		return []string{"panic: " + lastPanic}
 	}
 	switch op.head() {
+	case "jsonout":
+		return oracleJSONOut(op, res)
+	case "internseq":
+		return oracleInternSeq(op, res)
 	case "varu":
 		v, _ := atoiU(arg(1))
 		ref := refVarint(v)
